@@ -466,6 +466,9 @@ BUILTIN_TYPES = {'list', 'tuple', 'set', 'frozenset', 'dict', 'str', 'bytes', 'i
                  'OrderedDict', 'object', 'type'}
 
 
+_BUILTIN_TYPE_NAMES = frozenset(('str', 'bytes', 'int', 'float', 'bool', 'complex', 'list', 'tuple', 'dict', 'set', 'frozenset', 'type', 'object', 'bytearray'))
+
+
 class Interp:
     def __init__(self, repo, prims=None, max_paths=512, max_depth=40):
         self.repo = repo
@@ -929,10 +932,15 @@ class Interp:
             obj = self.eval(target.value, fr)
             lo = self.eval(target.slice.lower, fr) if target.slice.lower is not None else NONE
             hi = self.eval(target.slice.upper, fr) if target.slice.upper is not None else NONE
+            st = self.eval(target.slice.step, fr) if target.slice.step is not None else NONE
             if not (isinstance(obj, ListV) and not getattr(obj, 'lazy', False) and isinstance(lo, Const) and isinstance(hi, Const)
-                    and target.slice.step is None):
+                    and isinstance(st, Const)):
                 raise Undecided('slice assignment on %r (line %d)' % (obj, target.lineno))
-            obj.items[lo.v:hi.v] = self.iterate(v, target)
+            new_items = self.iterate(v, target)
+            try:
+                obj.items[lo.v:hi.v:st.v] = new_items
+            except (ValueError, TypeError) as e:
+                raise Raised('%s: %s' % (type(e).__name__, e), target.lineno)
         elif isinstance(target, ast.Subscript):
             obj = self.eval(target.value, fr)
             idx = self.eval(target.slice, fr)
@@ -1473,6 +1481,11 @@ class Interp:
     def _known_is(self, l, r):
         """``l is r``: identity for objects with identity, the singletons None / True / False by value, other constants of the same
         type and value as one object (small ints, interned strings, module constants compared with themselves)"""
+        # a builtin type whose *call* a model overrides is still that type as a value
+        if isinstance(l, Prim) and l.name in _BUILTIN_TYPE_NAMES:
+            l = TypeV(l.name)
+        if isinstance(r, Prim) and r.name in _BUILTIN_TYPE_NAMES:
+            r = TypeV(r.name)
         if isinstance(l, (ListV, DictV, SetV, ObjV, OpaqueV, IterV, PartialV, ExcV)) or isinstance(r, (ListV, DictV, SetV, ObjV, OpaqueV, IterV, PartialV, ExcV)):
             if isinstance(l, (Sym, SymStr, ValueV)) or isinstance(r, (Sym, SymStr, ValueV)):
                 return None
